@@ -5,9 +5,14 @@ package hashprefix
 // C12 (c, owned schedule): a hash-list refresh that runs while one
 // FilterRequest is in flight.  The in-flight query is parked exactly between
 // computing its verdict from the hashes and storing it in the result cache
-// (the result cache of the filter is wrapped, nothing in /repo is changed);
-// the refresh then runs to completion; the query is released and completes.
-// After that quiescent point no answer may reflect the old list.
+// (the result cache of the filter is wrapped, nothing in /repo is changed).
+// The refresh is then started.  If it gets as far as clearing the result
+// cache, it is left to run to completion and the query is released after it;
+// if it does not (an implementation that makes the refresh wait for in-flight
+// queries), the query is released after a grace period and the refresh
+// completes after it.  Either way both have completed before the key is asked
+// again, and at that quiescent point no answer may reflect the old list.  The
+// grace period only selects the schedule; it is never a verdict.
 
 import (
 	"context"
@@ -16,6 +21,7 @@ import (
 	"net/http/httptest"
 	"net/netip"
 	"net/url"
+	"os"
 	"path/filepath"
 	"slices"
 	"strings"
@@ -38,6 +44,11 @@ import (
 // clear.
 const vc12KnownRefreshRace = "hashprefix-refresh-race-stale-entry"
 
+// vc12RaceGrace is how long a refresh that has downloaded the new list may take
+// to reach the result cache before the harness concludes that it is waiting
+// for the in-flight query.
+const vc12RaceGrace = 40 * time.Millisecond
+
 var vc12RaceHosts = []string{"a.test", "x.a.test", "y.x.a.test", "b.test", "x.b.test", "c.test"}
 
 // vc12ParkCache parks the first Set after arm until released.
@@ -48,6 +59,10 @@ type vc12ParkCache struct {
 	armed   bool
 	parked  chan struct{}
 	release chan struct{}
+
+	// cleared is closed by the first Clear after arm.
+	cleared     chan struct{}
+	clearedOnce *sync.Once
 }
 
 func (c *vc12ParkCache) arm() {
@@ -57,6 +72,20 @@ func (c *vc12ParkCache) arm() {
 	c.armed = true
 	c.parked = make(chan struct{})
 	c.release = make(chan struct{})
+	c.cleared = make(chan struct{})
+	c.clearedOnce = &sync.Once{}
+}
+
+func (c *vc12ParkCache) Clear() {
+	c.Interface.Clear()
+
+	c.mu.Lock()
+	cleared, once := c.cleared, c.clearedOnce
+	c.mu.Unlock()
+
+	if once != nil {
+		once.Do(func() { close(cleared) })
+	}
 }
 
 func (c *vc12ParkCache) Set(k internal.CacheKey, v *cacheItem) {
@@ -114,8 +143,9 @@ func TestVerifC12RefreshRace(t *testing.T) {
 	st.Finish(t)
 
 	var (
-		mu   sync.Mutex
-		text = "# c12\n"
+		mu     sync.Mutex
+		text   = "# c12\n"
+		served = make(chan struct{}, 16)
 	)
 
 	srv := httptest.NewServer(http.HandlerFunc(func(w http.ResponseWriter, _ *http.Request) {
@@ -123,6 +153,10 @@ func TestVerifC12RefreshRace(t *testing.T) {
 		defer mu.Unlock()
 
 		_, _ = w.Write([]byte(text))
+		select {
+		case served <- struct{}{}:
+		default:
+		}
 	}))
 	t.Cleanup(srv.Close)
 
@@ -131,7 +165,15 @@ func TestVerifC12RefreshRace(t *testing.T) {
 		t.Fatal(err)
 	}
 
-	dir := t.TempDir()
+	// The cache files are not part of this property; a memory file system keeps
+	// the file synchronisation of every download cheap.
+	dir, err := os.MkdirTemp("/dev/shm", "verif-c12-race-")
+	if err != nil {
+		dir = t.TempDir()
+	} else {
+		t.Cleanup(func() { _ = os.RemoveAll(dir) })
+	}
+
 	nCase := 0
 
 	msgs, err := dnsmsg.NewConstructor(&dnsmsg.ConstructorConfig{
@@ -243,11 +285,39 @@ func TestVerifC12RefreshRace(t *testing.T) {
 			vc12RaceInconclusive(t, "the in-flight query did not reach the result cache in 60s")
 		}
 
-		// The refresh runs to completion while the query is parked.
+		// The refresh starts while the query is parked.
 		setText(v2)
-		refreshErr := f.Refresh(ctx)
+		for len(served) > 0 {
+			<-served
+		}
 
-		close(park.release)
+		refreshDone := make(chan error, 1)
+		go func() { refreshDone <- f.Refresh(ctx) }()
+
+		var refreshErr error
+		sched := "refresh-completed-while-query-parked"
+		select {
+		case <-served:
+			// The new list has been downloaded; what is left is to write the
+			// cache file, reset the hashes and clear the result cache.
+			select {
+			case <-park.cleared:
+				refreshErr = <-refreshDone
+				close(park.release)
+			case refreshErr = <-refreshDone:
+				close(park.release)
+			case <-time.After(vc12RaceGrace):
+				sched = "refresh-waited-for-query"
+				close(park.release)
+				refreshErr = <-refreshDone
+			}
+		case refreshErr = <-refreshDone:
+			close(park.release)
+		case <-time.After(60 * time.Second):
+			close(park.release)
+			vc12RaceInconclusive(t, "the refresh did not download the list in 60s")
+		}
+
 		inflight := <-done
 		if refreshErr != nil {
 			vc12RaceInconclusive(t, "refresh: %v", refreshErr)
@@ -292,7 +362,7 @@ func TestVerifC12RefreshRace(t *testing.T) {
 			}
 		}
 
-		st.Case(nt, cls, "repl-"+repl)
+		st.Case(nt, cls, "repl-"+repl, sched)
 		if st.WantSample() && nt != "" {
 			st.Sample(map[string]any{"v1": v1, "v2": v2, "host": host, "qt": dns.Type(qt).String(), "repl": repl, "after": got, "v2_implies": want})
 		}
